@@ -99,15 +99,10 @@ def one_replicate(spec):
                 "thr": [1, 20], "train_thr": [1, 20], "seed": spec["seed"], "est": spec["est"], "col": 1, "override": True,
                 "max_iter": 3, "direction": "f1" if spec["est"] in ("memo", "feat") else None, "leak": spec.get("leak", False)}
         if spec.get("leak"):
-            # negative-control instrument: make the training sets include the held-out fold (never on the checked path)
-            import sys
-            BM = sys.modules["mokapot.brew"]
-            orig = BM.make_train_sets
-
-            def leaky(test_idx, subset_max_train, data_size, rng):
-                for _ in zip(*test_idx):
-                    yield [list(range(ds)) for ds in data_size]
-            BM.make_train_sets = leaky
+            # negative-control instrument (never on the checked path): the memoriser also knows the labels of the rows it is NOT
+            # trained on -- exactly what training sets that include the held-out fold would give it.  (The side channel is in the
+            # driver's estimator, not in mokapot: the instrument does not depend on any private name of brew.py.)
+            case["leak_labels"] = {int(r["id"]): (1.0 if r["tgt"] else -1.0) for fl in files for r in fl["rows"]}
         try:
             if spec["est"] in ("svm", "tree", "lr"):
                 # run_real_learner builds through run_brew; keep the files for assign_confidence
@@ -127,8 +122,7 @@ def one_replicate(spec):
             else:
                 tr, info = brewrun.run_brew(case, workdir=wd, keep=True)
         finally:
-            if spec.get("leak"):
-                BM.make_train_sets = orig
+            pass
         if tr["raised"] or info["ret"] is None:
             return {"raised": tr["raised"] or "no return", "levels": {}}
         _, models, scs, descs = info["ret"]
